@@ -1,6 +1,7 @@
 """C19 value semantics and allocator discipline (DESIGN.md section 5 C19; A5)."""
 import c19_rules
 import quantile_rules
+import generic_lints
 
 
 def run(facts, tier):
@@ -12,6 +13,7 @@ def run(facts, tier):
         ("cache invalidation", quantile_rules.cache_invalidation, 9, "assignments and mutators invalidate the cached sorted view (a moved/copied-into sketch must not keep a view of its old contents)"),
         ("foreign memory", c19_rules.foreign_memory, 0, "no new/delete/malloc outside the user's allocator (reviewed exception: CPC compressor tables)"),
         ("dangling references", c19_rules.dangling_returns, 50, "no function returns a reference to a local object"),
+        ("duplicate operands", lambda fa: generic_lints.duplicate_conjuncts(fa, None), 2, "no logical chain tests the same operand twice (copy-paste of the wrong peer)"),
     ):
         o = f(facts)
         obs += o
